@@ -130,3 +130,22 @@ claim("C07",
       "write sets are over-approximated by access paths (depth 9) with one level of calling context; cache-fill locations (trie, cached) are not "
       "account state; three reasoned exemptions (event list has no reader; asset roots of a self-destructing contract are empty) whose premises are "
       "checked; go/ssa + go/types of x/tools v0.29.0; rule table lint/internal/rules/c07.go")
+
+claim("C16",
+      "ordered heeded guards in the interpreter loop + jump-table registry with static write reachability + path-sensitive snapshot/revert pairing + closed writers of gas/depth/readOnly + nondeterminism-source scan of package vm (AST/SSA/CFG)",
+      "Decides, for all bytecode and all paths at once, the structural necessary conditions of the contract sandbox: in Interpreter.Run every path to "
+      "operation.execute has passed the valid test, validateStack, enforceRestrictions, the two memory-size overflow tests, gasCost and a heeded "
+      "UseGas(cost) before mem.Resize, and execute's error / the reverts flag end the frame with an error, inside a depth++ / deferred depth-- bracket; "
+      "the 256-entry jump table is complete for its 137 valid opcodes and every opcode whose execute function statically reaches an account mutator "
+      "(22 classified) or EVM.Create carries writes:true (8 today), CALL's value transfer being covered by the explicit branch of enforceRestrictions, "
+      "whose readOnly shape is decided path-sensitively; all six call kinds refuse depth > CallCreateDepth before run, move value only behind "
+      "CanTransfer(same sender, same amount), take the snapshot before any write and revert to it on every error path after run (Create: also code-store "
+      "failure and oversize code); StaticCall sets readOnly and resets it only if it set it; UseGas is refuse-or-subtract, Contract.Gas / EVM.depth / "
+      "readOnly / abort / the table have closed writer sets, nested frames get only gas that was deducted first and give back only their own remainder, "
+      "precompiles run after UseGas(RequiredGas); package vm has no goroutine, select, order-sensitive map range, and its six clock reads flow only into "
+      "the Tracer. It does not decide termination or gas <= limit as arithmetic facts, the correctness of individual opcodes and gas formulas, precompile "
+      "panics on odd inputs, nor that RevertToSnapshot restores the state exactly (C07).",
+      "go/types + go/ssa of x/tools v0.29.0, default build configuration; package-level error variables are non-nil; the frozen tables in "
+      "lint/internal/rules/c16.go (six call kinds, reader/mutator classification of AccountAccessor and AccountManager methods, permitted writers); static "
+      "call reachability inside package vm stops at the call kinds and at run (the nested frame is constrained through the inherited readOnly flag); the "
+      "state-writing precompile setRewardValue is outside the writes flag and only its membership in a closed set is decided")
